@@ -257,7 +257,7 @@ func genHist(rng *hx.Rng, n int) []hist.Op {
 }
 
 func histories(o *hx.Opts, rep *hx.Report, w *world.World, rng *hx.Rng) {
-	env := &hist.Env{W: w, Driver: o.Driver, Rep: rep, Stream: "history vs Model/Mail + client replay"}
+	env := &hist.Env{W: w, Driver: o.Driver, Rep: rep, SkipValidity: true, Stream: "history vs Model/Mail + client replay"}
 	env.OnStep = func(h *hist.H, op hist.Op, real, model []hist.BoxD) {
 		// B: the client's previous view of the op's mailbox, with the untagged EXPUNGE notices applied in order,
 		// must be the server's listing minus what was added
